@@ -80,6 +80,13 @@ pub fn run(ctx: &Ctx) {
     let mut blocks = vec![Block::new(Universe::new("U_adv(A_case)", A_CASE, 2, 2, true), bases.clone(), "i x {{}, r, x, g, e, d, w, D, W+S}")];
     blocks.push(Block::new(Universe::new("U_adv(A_case)", A_CASE, 3, 1, false), bases.clone(), "i x {{}, r, x, g, e, d, w, D, W+S}"));
     blocks.push(Block::new(Universe::new("U_aAbB{a,A,b,B}", &["a", "A", "b", "B"], 2, 3, true), vec![Cfg::new(I), Cfg::new(I | R), Cfg::new(I | NA | NE)], "i, i+r, i+na+ne"));
+    blocks.push(Block::new(u_runs(), vec![Cfg::new(I), Cfg::new(I | X), Cfg::new(I | W)], "i, i+x, i+w"));
+    if !thorough {
+        blocks.push(Block::new(u_kind_pairs(2, 2, false), vec![Cfg::new(I)], "i"));
+    } else {
+        blocks.push(Block::new(u_kind_pairs(2, 3, false), vec![Cfg::new(I), Cfg::new(I | X)], "i, i+x"));
+        blocks.push(Block::new(u_kind_pairs(3, 1, false), bases.clone(), "i x {{}, r, x, g, e, d, w, D, W+S}"));
+    }
     if thorough {
         blocks.push(Block::new(Universe::new("U_aAbB{a,A,b,B}", &["a", "A", "b", "B"], 3, 3, true), vec![Cfg::new(I), Cfg::new(I | NE)], "i, i+ne"));
         blocks.push(Block::new(Universe::new("U_adv(A_case)", A_CASE, 2, 3, true), vec![Cfg::new(I)], "i"));
